@@ -114,7 +114,7 @@ def run(args):
                     a["limits"] = lim
                 if b == "tree":
                     a["tree_limit"] = 300
-                if b == "vm" and lim == LIMITS[3] and (pi % 3 == 0 or thorough):
+                if b == "vm" and lim == LIMITS[3] and (pi % 3 == 0 or thorough or "mid expression" in label):
                     a["trace"] = True
                     a["trace_instr"] = True
                 reqs.append({"op": "run", "id": len(reqs), "a": a})
